@@ -7,7 +7,7 @@ fix_commits = [l.split()[0] for l in fix_commits if " fix:" in l]
 TEXT = {
  "C01": ("theorems over all element trees and environments (properties/C01.v: shape invariant of the collector by induction over the tree, no CaretDepthError) + correspondence of the nesting shapes of all 15 part attributes with /repo on generated packages and the corpus + shape oracle on /repo's values + source translation: _get_elem_depth (BFS = min distance, 1..4), get_par_strings/_join_runs, and the caret methods of DepthCollector in a heap embedding refine the model (alias stack = rightmost spine)", "8 C01"),
  "C02": ("refinement theorem: a paragraph of inline content yields exactly one record whose tokens are label + marker + the children's contributions in order; merge keeps the atom sequence (partial, counterexample proved); correspondence of all plain strings; reference-rendering oracle per paragraph + source translation: _is_content / has_content and the content-tag set equal the model; the run methods of the collector in the heap embedding (add_text_into_open_run, insert_text_as_new_run, commence_run ...) do exactly the model's run operations and touch nothing else", "8 C02"),
- "C03": ("theorems on the view functions (address-wise agreement of the three forms, concatenation of document*, text) for arbitrary nested input + correspondence of all views + the four equalities evaluated on /repo's values + source translation: get_par_strings, _join_runs, flatten_text equal the model", "8 C03"),
+ "C03": ("theorems on the view functions (address-wise agreement of the three forms, concatenation of document*, text) for arbitrary nested input + correspondence of all views + the four equalities evaluated on /repo's values + source translation: get_par_strings, _join_runs, flatten_text and the 22 view attributes of DocxContent equal the model for every archive", "8 C03"),
  "C04": ("grid theorems for every tiling (n x m, duplicate / blank, agreement off merges) + END-TO-END refinement: walking a whole tbl/tr/tc/p table from any reachable state appends exactly the grid function's table, each position holding the records of the source cell covering it (GridWalk; side condition refuted without it) + correspondence + cell-by-cell grid oracle", "8 C04"),
  "C05": ("lineage theorem for every directly nested table walked from any state, free-paragraph theorem, element/style from the paragraph refinement + correspondence of lineage/style/element + oracle on /repo's records, predicates and get_headings + source translation: is_tbl/is_tr/is_tc and get_pStyle equal the model; commence_paragraph in the heap embedding stores the lineage as it is after set_caret in a new Par (frame of the caret methods proved)", "8 C05"),
  "C06": ("merge theorems (atoms preserved, idempotent - both partial with machine-checked counterexamples for each dropped hypothesis) + correspondence at run granularity + metamorphic re-splitting oracle + source translation: _is_mergeable, _is_text_or_text_math and the merge key _elem_key equal the model for every element", "8 C06"),
